@@ -533,6 +533,8 @@ theorem delete_short_prefix_m (fuel : Nat) (sn K2 : List Nib) (h : Bytes) (c : W
                       td := (delete H hasDb s fuel c K2).td }
         | none =>
           match (delete H hasDb s fuel c K2).node with
+          | .nil => { node := .nil, change := (delete H hasDb s fuel c K2).change,
+                      td := (delete H hasDb s fuel c K2).td ++ [h] }
           | .short ck _ cc _ _ => { node := .short (sn.map nb ++ ck) h cc true tc,
                                     change := (delete H hasDb s fuel c K2).change, td := (delete H hasDb s fuel c K2).td }
           | n' => { node := .short (sn.map nb) h n' true tc, change := (delete H hasDb s fuel c K2).change,
@@ -611,8 +613,17 @@ theorem delete_uniform_spec : ∀ (fuel : Nat) (n : WN) (t : PT) (m : Nat) (key 
             | hashRef hh hw => simp [abs] at h5
             | empty => exact absurd rfl h2
             | nil =>
+              -- the child of a uniform short node is a value (then `K2 = []`) or a branch (never deleted to nothing)
+              exfalso
               simp only [abs, Option.some.injEq] at h5; subst h5
-              exact ⟨rfl, by simp, ⟨by simp, trivial⟩, ⟨_, rfl, rfl⟩, fun hw => h6 hw⟩
+              cases t' with
+              | none => simp [PT.isVB] at hvb
+              | short _ _ => simp [PT.isVB] at hvb
+              | value vv vw =>
+                simp only [Uniform] at huc
+                have : K2.length ≠ 0 := by simpa using hK
+                omega
+              | branch bch => exact PT.delete_branch_ne bch K2 h4
             | value vh vv vw vd =>
               simp only [abs, Option.some.injEq] at h5; subst h5
               exact ⟨rfl, by simp, ⟨by simp, trivial⟩, ⟨_, rfl, rfl⟩, fun hw => h6 hw⟩
